@@ -20,4 +20,3 @@ try:
             print("   ", l[:300])
 finally:
     subprocess.call(["git", "-C", "/repo", "worktree", "remove", "--force", wt])
-    subprocess.call("rm -f /verif/replays/*/new-*.json", shell=True)
